@@ -23,7 +23,7 @@ double KillIOCost__rankForKilling__lambda_sortDescWithKillPrefs(CgroupContext cg
   __CPROVER_ensures(__CPROVER_equal(__CPROVER_return_value, DOC_KEY(cgroup_ctx)) && ghost_exc == 0) /*@C09*/;
 #define DOC_BETTER(x, f) (PREF(x) > PREF(f) || (PREF(x) == PREF(f) && DOC_KEY(x) > DOC_KEY(f)))
 vec_CgroupContext KillIOCost__rankForKilling(KillIOCost *self, OomdContext *ctx, vec_CgroupContext cgroups)
-  __CPROVER_requires(cgroups.n <= VEC_MAX && !g_sorted && ghost_exc == 0)
+  __CPROVER_requires(cgroups.n <= VEC_MAX && ghost_exc == 0)
   __CPROVER_requires((g_w >= cgroups.n || KEY_OK(DOC_KEY(ELEM(cgroups.vid, g_w)))) && (g_s0 >= cgroups.n || KEY_OK(DOC_KEY(ELEM(cgroups.vid, g_s0)))))
   __CPROVER_assigns(g_copied, g_sorted, g_copy_vid, g_copy_src)
   __CPROVER_ensures(__CPROVER_return_value.n == cgroups.n && ghost_exc == 0)   /* nobody is filtered out */ /*@C09*/
